@@ -29,6 +29,8 @@ assert rc == 0, out
 rc, out = sh("cargo test -p des -p des-cqueue --offline 2>&1 | grep -E 'test result|FAILED|failed' | head -60", wt)
 log["existing_tests_with_change"] = out
 existing_ok = "FAILED" not in out and "failed;" in out and all(" 0 failed" in l for l in out.splitlines() if "test result" in l)
+made_dir = not os.path.isdir(os.path.dirname(dst_demo))
+os.makedirs(os.path.dirname(dst_demo), exist_ok=True)
 shutil.copy(demo, dst_demo)
 rc, out = sh("cargo test -p %s --offline --test %s 2>&1 | tail -15" % (crate, testname), wt)
 log["demo_with_change"] = out
@@ -38,6 +40,8 @@ rc, out = sh("cargo test -p %s --offline --test %s 2>&1 | tail -8" % (crate, tes
 log["demo_without_change"] = out
 demo_passes = "test result: ok" in out
 os.remove(dst_demo)
+if made_dir:
+    os.rmdir(os.path.dirname(dst_demo))
 sh("git checkout -- .", wt)
 print("confirm: existing_tests_pass=%s demo_fails_with=%s demo_passes_without=%s" % (existing_ok, demo_fails, demo_passes))
 
